@@ -38,9 +38,38 @@ import DadiVerif.Model.DataDict
                                                tsnps = snp|hasCtx,i0,i2,o0,o1,o2;…  (flank / outgroup-context base codes), the table file holds
                                                a[outgroup base] + b[derived base] for (context, outgroup base), a and b = 4 rationals each (codes 1..4)
    tricls tsnps                             -> ok s|k:f0,der,f2,og|v|e …            `_data_by_tri` SNP by SNP: skipped / kept in class / ValueError / KeyError
+   vcflines filt lines                      -> ok s|REF:ALT:AA …   the reader's token-level decisions line by line (`lineKept`, `lineAa`):
+                                               lines = FILTER,REF,ALT,INFO;…  each text as the hex of its bytes (`-` = empty); answer per line
+                                               `s` (does not enter the dictionary), `e` (IndexError) or the recorded texts in hex
    projw m n i j / chunkidx size p / shapes -> ok … -/
 namespace DadiVerif.Driver.DataDict
 open DadiVerif DadiVerif.Proto DadiVerif.DataDict DadiVerif.Gen.DD
+
+def hexVal (c : Char) : Option Nat :=
+  if c.isDigit then some (c.toNat - '0'.toNat)
+  else if 'a'.toNat ≤ c.toNat && c.toNat ≤ 'f'.toNat then some (c.toNat - 'a'.toNat + 10) else none
+
+def unhexAux : List Char → Option (List Char)
+  | [] => some []
+  | a :: b :: r => do
+      let x ← hexVal a; let y ← hexVal b; let t ← unhexAux r
+      some (Char.ofNat (16 * x + y) :: t)
+  | _ => none
+
+/-- a text sent as the hex of its (ASCII) bytes; `-` = the empty text -/
+def unhex (s : String) : Option (List Char) := if s = "-" then some [] else unhexAux s.toList
+
+def hexDigit (n : Nat) : Char := if n < 10 then Char.ofNat ('0'.toNat + n) else Char.ofNat ('a'.toNat + n - 10)
+
+def tohex (l : List Char) : String :=
+  if l.isEmpty then "-" else String.ofList (l.flatMap fun c => [hexDigit (c.toNat / 16), hexDigit (c.toNat % 16)])
+
+def parseVcfText (s : String) : Option VcfText :=
+  match s.splitOn "," with
+  | [f, r, a, i] => do
+      let f ← unhex f; let r ← unhex r; let a ← unhex a; let i ← unhex i
+      some { filter := f, ref := r, alt := a, info := i }
+  | _ => none
 
 def splitList (s : String) (sep : String) : List String := if s = "-" then [] else s.splitOn sep
 
@@ -294,6 +323,14 @@ def handle (toks : List String) : Option String :=
         | some u => some ("ok " ++ showData proj u)
         | none =>
           if ts.any (fun t => triClassify t == .valueError) then some "err valueerror" else some "err keyerror"
+  | ["vcflines", filt, lines] => do
+      let filt ← parseBool filt
+      let ls ← (splitList lines ";").mapM parseVcfText
+      some ("ok " ++ " ".intercalate (ls.map fun l =>
+        if !lineKept filt l then "s"
+        else match lineAa l with
+          | none => "e"
+          | some aa => ":".intercalate [tohex (alleleText l.ref), tohex (alleleText l.alt), tohex aa]))
   | ["shapes13"] =>
       some ("ok " ++ " ".intercalate ([accumulateShapeOk, foldIffUnpolarized, fromDataDictShapeOk, sShapeOk, keyParseShapeOk,
         chunkLoopShapeOk, chunkRebuildShapeOk, bootstrapShapeOk, foldMaskShapeOk, statsSelfWrites.isEmpty, bsvShapeOk,
